@@ -147,6 +147,6 @@ def e_err(c):
 
 
 PARTS = [
-    Part("designs", e_case, s_case(), quick=160, thorough=600, shards=16, quick_shards=4, shrink=False, rule="see RULE"),
-    Part("errors", e_err, s_err, quick=30, thorough=100, shards=1, rule="incomplete specifications / non-optical input"),
+    Part("designs", e_case, s_case(), quick=160, thorough=3600, shards=16, quick_shards=4, shrink=False, rule="see RULE"),
+    Part("errors", e_err, s_err, quick=30, thorough=600, shards=1, rule="incomplete specifications / non-optical input"),
 ]
